@@ -331,6 +331,271 @@ class Runtime(Stream):
         acc[pl["what"]] = acc.get(pl["what"], 0) + 1
 
 
+# ---------------------------------------------------------------------------------------------
+# Exact FFT: the REAL `fft` / `ifft` driven over Z_p through a `custom_np` stand-in
+# ---------------------------------------------------------------------------------------------
+
+class _InexactScalar(Exception):
+    pass
+
+
+class _BadTwiddle(Exception):
+    pass
+
+
+class Zp:
+    """element of Z_p with exact arithmetic (`+`, `*` with Zp, Python ints, and float scalars
+    that are small exact rationals: the `1/len(x)` of `ifft`)"""
+    __slots__ = ("v", "p")
+
+    def __init__(self, v, p):
+        self.v = v % p
+        self.p = p
+
+    def _c(self, o):
+        if isinstance(o, Zp):
+            if o.p != self.p:
+                raise TypeError("mixed moduli")
+            return o.v
+        if isinstance(o, bool) or not isinstance(o, (int, float)):
+            return None
+        if isinstance(o, int):
+            return o % self.p
+        fr = Fraction(o).limit_denominator(1 << 20)
+        if abs(float(fr) - o) > 1e-12 * max(1.0, abs(o)) or fr.denominator % self.p == 0:
+            raise _InexactScalar(repr(o))
+        return fr.numerator * pow(fr.denominator, -1, self.p) % self.p
+
+    def __add__(self, o):
+        c = self._c(o)
+        return NotImplemented if c is None else Zp(self.v + c, self.p)
+
+    def __radd__(self, o):
+        c = self._c(o)
+        return NotImplemented if c is None else Zp(c + self.v, self.p)
+
+    def __mul__(self, o):
+        c = self._c(o)
+        return NotImplemented if c is None else Zp(self.v * c, self.p)
+
+    def __rmul__(self, o):
+        c = self._c(o)
+        return NotImplemented if c is None else Zp(c * self.v, self.p)
+
+    def __repr__(self):
+        return f"Zp({self.v} mod {self.p})"
+
+
+class _ExactDtype:
+    """what `custom_np.dtype(complex_dtype)` returns: `.type` (the `scalar_tp` of `fft`) is the
+    identity, `.kind` is complex"""
+    kind = "c"
+
+    @staticmethod
+    def type(v):
+        return v
+
+
+class ExactNp:
+    """Stand-in for numpy in `fft(..., custom_np=...)`.  `exp` maps the complex argument
+    `sign*(-2j)*pi*k/m` back to the exact rational `sign*k/m` and returns `z**(n*sign*k/m)` in
+    Z_p, where `z` represents `exp(-2j*pi/n)` for the top-level length `n` (`z**n == 1`).
+    Everything else `fft` asks of `custom_np` (`dtype`, `arange`, `concatenate`, `complex128`)
+    is provided; vectors are numpy object arrays of `Zp`."""
+    complex128 = _ExactDtype
+
+    def __init__(self, p, n, z):
+        self.p, self.n, self.z = p, n, z
+
+    def dtype(self, d):
+        return _ExactDtype
+
+    def arange(self, a, b, dtype=None):
+        import numpy as np
+        return np.arange(a, b, dtype=np.complex128)
+
+    def concatenate(self, parts, axis=0):
+        import numpy as np
+        return np.concatenate(parts, axis=axis)
+
+    def _one(self, c):
+        c = complex(c)
+        if abs(c.real) > 1e-9:
+            raise _BadTwiddle(f"exp argument has real part {c.real}")
+        val = c.imag / (-2 * math.pi)
+        fr = Fraction(val).limit_denominator(1 << 16)
+        if abs(float(fr) - val) > 1e-9:
+            raise _BadTwiddle(f"exp argument/(-2j*pi) = {val} is not a small rational")
+        e = fr * self.n
+        if e.denominator != 1:
+            raise _BadTwiddle(f"exponent {fr} is not a multiple of 1/{self.n}")
+        return Zp(pow(self.z, int(e), self.p), self.p)
+
+    def exp(self, arg):
+        import numpy as np
+        if isinstance(arg, np.ndarray):
+            out = np.empty(len(arg), dtype=object)
+            for i, c in enumerate(arg):
+                out[i] = self._one(c)
+            return out
+        return self._one(arg)
+
+
+def zp_vec(xs, p):
+    import numpy as np
+    a = np.empty(len(xs), dtype=object)
+    for i, v in enumerate(xs):
+        a[i] = Zp(v, p)
+    return a
+
+
+def _is_prime(p):
+    return p > 1 and all(p % d for d in range(2, int(math.isqrt(p)) + 1))
+
+
+def _prime_factors(n):
+    return [q for q in range(2, n + 1) if n % q == 0 and _is_prime(q)]
+
+
+def primes_for(n, count=2):
+    """the first `count` primes p = 1 (mod n), p > 2"""
+    res, k = [], 1
+    while len(res) < count:
+        p = k * max(n, 1) + 1
+        if p > 2 and _is_prime(p):
+            res.append(p)
+        k += 1
+    return res
+
+
+def root_of_order(p, n):
+    """an element of multiplicative order exactly n in Z_p (n | p-1)"""
+    qs = _prime_factors(n)
+    for g in range(2, p):
+        z = pow(g, (p - 1) // n, p)
+        if all(pow(z, n // q, p) != 1 for q in qs):
+            return z
+    return 1
+
+
+def exact_fft(p, n, z, xs):
+    from pymbolic import algorithm as al
+    with warnings.catch_warnings():
+        warnings.simplefilter("ignore")
+        res = al.fft(zp_vec(xs, p), complex_dtype=_ExactDtype, custom_np=ExactNp(p, n, z))
+    return [int(e.v) for e in res]
+
+
+def exact_ifft(p, n, z, ys):
+    from pymbolic import algorithm as al
+    with warnings.catch_warnings():
+        warnings.simplefilter("ignore")
+        res = al.ifft(zp_vec(ys, p), complex_dtype=_ExactDtype, custom_np=ExactNp(p, n, z))
+    return [int(e.v) for e in res]
+
+
+def _err(ex):
+    return f"(err {type(ex).__name__.lstrip('_')})"
+
+
+class FftExact(Stream):
+    """the arithmetic of fft / ifft: the REAL functions run over Z_p (custom_np stand-in, exact
+    twiddles z**k) vs the Lean model instance `c19FftMod` / `c19IfftMod`, compared EXACTLY;
+    oracle: the O(n^2) DFT over Z_p and ifft(fft(x)) == x"""
+    name = "fft-exact"
+
+    def cases(self, rng, tier):
+        big = tier != "quick"
+        lengths = list(range(0, 65))          # every length 1..64 (and the raising length 0)
+        longer = [97, 128, 210, 243, 360, 509, 512] if big else [rng.choice([81, 97, 100, 128])]
+        for n in lengths + longer:
+            reps = (3 if big else 1) if n <= 64 else 1
+            for p in primes_for(n, 2 if (big and n <= 64) else 1):
+                zs = [root_of_order(p, n)] if n else [1]
+                # forward transform needs only z**n == 1: also roots of smaller order, and 1
+                divs = [d for d in range(1, n) if n % d == 0]
+                if divs:
+                    d = rng.choice(divs)
+                    zs.append(pow(zs[0], n // d, p))       # order d < n
+                for zi, z in enumerate(zs):
+                    for _ in range(reps):
+                        kind = rng.randrange(4)
+                        if kind == 0 and n:
+                            xs = [0] * n
+                            xs[rng.randrange(n)] = 1         # unit vector
+                        elif kind == 1:
+                            xs = [rng.randrange(0, 3) for _ in range(n)]
+                        else:
+                            xs = [rng.randrange(p) for _ in range(n)]
+                        yield {"op": "fft", "p": p, "z": z, "x": xs, "prim": zi == 0}
+                        if zi == 0:
+                            yield {"op": "ifft", "p": p, "z": z, "x": xs, "prim": True}
+
+    def request(self, pl):
+        p, z, xs = pl["p"], pl["z"], pl["x"]
+        body = "(" + " ".join(str(v) for v in xs) + ")"
+        if pl["op"] == "fft":
+            return f"(c19-fft {p} {z} {body})"
+        n = len(xs)
+        ninv = pow(n, -1, p) if n else 0
+        return f"(c19-ifft {p} {pow(z, -1, p)} {ninv} {body})"
+
+    def _run(self, pl):
+        p, z, xs = pl["p"], pl["z"], pl["x"]
+        if pl["op"] == "fft":
+            return exact_fft(p, len(xs), z, xs)
+        return exact_ifft(p, len(xs), z, xs)
+
+    def run_impl(self, pl):
+        try:
+            r = self._run(pl)
+        except ZeroDivisionError:
+            return "ZeroDivisionError"
+        except Exception as ex:   # stand-in could not interpret a twiddle, shape errors, ...
+            return _err(ex)
+        return "(" + " ".join(str(v) for v in r) + ")"
+
+    def oracle(self, pl):
+        p, z, xs = pl["p"], pl["z"], pl["x"]
+        n = len(xs)
+        if n == 0:
+            return None                      # the property speaks of lengths >= 1
+        try:
+            if pl["op"] == "fft":
+                got = exact_fft(p, n, z, xs)
+                zp = [pow(z, e, p) for e in range(n)]
+                want = [sum(zp[(k * j) % n] * xs[j] for j in range(n)) % p for k in range(n)]
+                if got != want:
+                    bad = [k for k in range(len(want)) if k >= len(got) or got[k] != want[k]]
+                    return Failure("fft-exact-vs-dft",
+                                   f"n={n} p={p} z={z}: output differs from the DFT over Z_p at "
+                                   f"indices {bad[:6]}", pl)
+            else:
+                ys = exact_fft(p, n, z, xs)
+                back = exact_ifft(p, n, z, ys)
+                if back != [v % p for v in xs]:
+                    return Failure("ifft-exact-inverts",
+                                   f"n={n} p={p} z={z}: ifft(fft(x)) != x over Z_p", pl)
+        except Exception as ex:
+            return Failure("fft-exact-raises", f"n={n} p={p} z={z}: {ex!r}", pl)
+        return None
+
+    def shrink(self, pl):
+        xs = pl["x"]
+        for i, v in enumerate(xs):
+            if v:
+                yield dict(pl, x=xs[:i] + [0] + xs[i + 1:])
+                if v != 1:
+                    yield dict(pl, x=xs[:i] + [1] + xs[i + 1:])
+
+    def nontrivial_key(self, pl, model, impl):
+        return None if not any(pl["x"]) else f"{pl['op']} {pl['p']} {pl['z']} {pl['x']}"
+
+    def stats(self, pl, mo, io, acc):
+        acc[pl["op"]] = acc.get(pl["op"], 0) + 1
+        acc["lengths"] = sorted(set(acc.get("lengths", [])) | {len(pl["x"])})
+
+
 def probes():
     """Defects repaired by fix: commits — reported again if they ever return."""
     from pymbolic import evaluate, var
@@ -365,15 +630,17 @@ def probes():
 PROP = Prop(
     id="C19",
     title="Exact-arithmetic helpers and number types compute what they claim",
-    lean_targets=["PV.Properties.C19"],
+    lean_targets=["PV.Properties.C19", "PV.Properties.C19Fft"],
     theorems=[],
-    streams=[Arith(), Polys(), Runtime()],
+    streams=[Arith(), Polys(), FftExact(), Runtime()],
     probes=[probes],
     trusted_base=["Lean 4.33 kernel; axioms propext, Classical.choice, Quot.sound only",
                   "harness/props/c19.py; CPython big integers",
-                  "FFT on floats, numpy, symbolic FFT: runtime, checked against the O(n^2) DFT with a tolerance only"],
-    level_text='Lean theorems (unbounded): integer_power = x^n in every monoid (negative n refused); extended Euclid satisfies Bezout and returns a gcd up to sign (sign rule proved), lcm consistent; find_factors factorises, FFT index splitting is a bijection; sparse polynomial +,-,*,**,divmod are homomorphic to evaluation, _sort_uniq preserves value and sorts, Horner evaluation equals the sum of terms. Tied to the code by correspondence on big integers and random sparse polynomials; FFT/ifft/sym_fft are compared with the O(n^2) DFT numerically (runtime part, partial).',
-    level_note='Trusted: Lean kernel; harness; CPython big integers. The FFT arithmetic (floating-point complex, numpy), polynomial division over fields and mixed bases are not modelled; matrices and mapper traversal of polynomials are checked by oracles on the real code only.',
+                  "FFT arithmetic: proved for every commutative ring on the model and tied to the real fft/ifft EXACTLY over Z_p "
+                  "through a custom_np stand-in (harness/props/c19.py: ExactNp, Zp) that maps exp(sign*-2j*pi*k/m) back to z**(n*k/m); "
+                  "the floating-point complex exp of numpy itself and the symbolic FFT are runtime-checked against the O(n^2) DFT with a tolerance only"],
+    level_text='Lean theorems (unbounded): integer_power = x^n in every monoid (negative n refused); extended Euclid satisfies Bezout and returns a gcd up to sign (sign rule proved), lcm consistent; find_factors factorises, FFT index splitting is a bijection; the whole fft recursion (Cooley-Tukey split by find_factors, sub-transforms with their own roots, twiddles, recombination, length-1 and prime base cases) computes the DFT sum_j z^(kj) x_j over EVERY commutative ring for every n >= 1 and every z with z^n = 1 (no primitivity needed), ifft inverts it exactly when n is invertible and z is a principal n-th root (necessary and sufficient; primitive roots in domains are principal), and the Z_p instance run by the driver equals the DFT mod p; sparse polynomial +,-,*,**,divmod are homomorphic to evaluation, _sort_uniq preserves value and sorts, Horner evaluation equals the sum of terms. Tied to the code by correspondence on big integers and random sparse polynomials, and for fft/ifft by EXACT comparison of the real functions run over Z_p (custom_np stand-in) with the model for all lengths 0..64 and longer ones; fft/ifft on complex floats and sym_fft are additionally compared with the O(n^2) DFT numerically (runtime part).',
+    level_note='Trusted: Lean kernel; harness; CPython big integers. Floating-point rounding of the complex FFT (numpy exp/multiply) and the symbolic FFT, polynomial division over fields and mixed bases are not modelled; matrices and mapper traversal of polynomials are checked by oracles on the real code only.',
     technique='Lean 4 proofs about loop-faithful models (well-founded recursion, Mathlib Monoid/Int lemmas) + differential correspondence + numeric DFT oracle',
     design_ref="DESIGN.md §4 C19",
 )
